@@ -25,7 +25,8 @@ EARLY = [
     "3(X)", "3(nx)", "3([X])", "3(1[[x]])", "3(n[X|x])", "1{X}", "2→c {←c |←c ‹→c x}", "2→c {←c |←c ‹→c [X]}", "λX;†", "1λ[X];†",
     "λ1[X|2];†", "@h|1X2;@h;", "@h|1[X];@h;", "3ɾƛX;L", "3ɾƛ[X];L", "3ɾ'X;L", "⟨X|1⟩", "3(⟨X⟩)", "3(⟨x⟩)", "3(λX;†)", "λ3(X);†",
     "λ2(nx);†", "3(vX)", "3λ:[‹x];†", "2(1{X})", "2(2(X)X)", "@h|2(X)n;@h;", "λ2(X)X;†", "2(λ1[X];†x)", "3ɾƛ2(X);L", "1{λX;†X}",
-    "⟨⟩", "⟨1|2_⟩", "⟨_⟩", "⟨1|⟩_ 4`5+`Ė", "7λ3(1 2v+X);†", "3(1 2v+X)", "λ0|5X;†", "λ0|X;†", "4 5λ2|X;†", "1(1£{X¥|0£})", "2(1£{x¥|0£})", "λ1£{X¥|0£};†", "1(0 1{X|})", "@h:1|X;4@h;", "@h:a|←a X;4@h;", "7λλ0|1X;†__;†",
+    "0{›:1=[x]:3=[X]}", "0{›:2<[x]X}", "2(0{›:1=[x]:3=[X]}n)", "λ0{›:1=[x]:3=[X]}n;†", "3ɾ…,", "3ɾ→a ←a L_←a ,", "3ɾ→a 2(←a ,)", "3ɾ'4>;,",
+    "⟨⟩", "⟨1|2_⟩", "⟨_⟩", "⟨1|⟩_ 4`5+`Ė", "7λ3(1 2v+X);†", "3(1 2v+X)", "λ0|5X;†", "λ0|X;†", "4 5λ2|X;†", "1(1→c {X←c |0→c })", "2(1→c {x←c |0→c })", "λ1→c {X←c |0→c };†", "1(0 1{X|})", "@h:1|X;4@h;", "@h:a|←a X;4@h;", "7λλ0|1X;†__;†",
 ]
 PROBES = ["n", "λn;†", "2(n)", "`n`Ė", "@p|n;@p;", "2ɾƛn;L"]
 MENU = ATOMS + STRUCTS + EARLY
@@ -36,7 +37,8 @@ CHAIN = [
     ("for", "2(", ")", True), ("while", "2→%s {←%s |←%s ‹→%s ", "}", True),
     ("lambda", "λ", ";†", False), ("map", "2ɾƛ", ";L", False), ("function", "@f|", ";@f;", False), ("list", "⟨", "⟩", False),
     ("filter", "2ɾ'", ";L", False),
-    ("while-cond", "1£{", "¥|0£}", False),        # the inner construct sits in the CONDITION of a while loop (evaluated twice)
+    ("while-forever", "0→%s {←%s ›→%s ←%s 2=[X]", "}", True),   # a loop without a condition, left with X after two rounds (own counter variable)
+    ("while-cond", "1→%s {", "←%s |0→%s }", False),   # the inner construct sits in the CONDITION of a while loop (evaluated twice)
     ("lambda0", "λ0|", ";†", False),              # a lambda called with zero arguments
     ("lambda2", "4 5λ2|", ";†", False),
     ("function-args", "4 5@z:1:b|", ";@z;", False),
@@ -58,8 +60,11 @@ def chain_ok(chain, leaf):
 
 def chain_text(chain, leaf):
     # every nested while gets its own counter variable
-    pre = "".join((c[1] % (("cdefg"[i],) * 4)) if "%s" in c[1] else c[1] for i, c in enumerate(chain))
-    return pre + leaf + "".join(c[2] for c in reversed(chain))
+    def sub(t, i):
+        return t % (("cdefg"[i],) * t.count("%s")) if "%s" in t else t
+
+    pre = "".join(sub(c[1], i) for i, c in enumerate(chain))
+    return pre + leaf + "".join(sub(c[2], len(chain) - 1 - j) for j, c in enumerate(reversed(chain)))
 
 
 # ---------------------------------------------------------------- execution
@@ -212,12 +217,12 @@ def run(tier, seed):
     rep = Report(PROP, tier, seed, "model_checking")
     quick = tier == "quick"
     cd = 4
-    base = CHAIN[:9]   # depth 4 over the nine basic elements; the four extra ones (while condition, lambda arities, function
+    base = CHAIN[:9]   # (CHAIN[9:] = while-forever, while-cond, lambda0, lambda2, function-args)  depth 4 over the nine basic elements; the four extra ones (while condition, lambda arities, function
     extra = CHAIN[9:]  # arguments) are combined with everything up to depth 3
     old_leaves, new_leaves = [LEAVES[0], LEAVES[1], LEAVES[2], LEAVES[4]], [LEAVES[3], LEAVES[5]] + LEAVES[6:]
     sh = [([c], 1) for c in CHAIN] + [([(a, b)], cd, old_leaves) for a in base for b in base]
     sh += [([(a, b)], 3, new_leaves) for a in base for b in base]
-    sh += [([(a, b)], 3) for a in CHAIN for b in CHAIN if a in extra or b in extra]
+    sh += [([(a, b)], 2) for a in CHAIN for b in CHAIN if a in extra or b in extra]
     sh += [([(a, b, c)], 3) for a in base for b in base for c in extra]
     explore.pmap(_chain_shard, sh, rep, seed)
     explore.pmap(_pair_shard, [(c, PROBES) for c in explore.chunks(EARLY + STRUCTS, 32)], rep, seed)
